@@ -60,10 +60,12 @@ def generate(prop, rng, tier):
     if kind == "tsr" and cvt.startswith("presplit"):
         cvt = "kfold"
     datasets = []
+    # (listed in an arbitrary, not necessarily alphabetical, order)
+    ds_names = rng.sample(["alpha", "mid", "zeta", "ds0", "ds10", "ds9"], n_ds)
     for d in range(n_ds):
         n = rng.randint(6, 14 if big else 10)
         datasets.append({
-            "name": "ds%d" % d, "n": n, "cols": rng.choice([1, 1, 2, 3]),
+            "name": ds_names[d], "n": n, "cols": rng.choice([1, 1, 2, 3]),
             "len": rng.randint(3, 6),
             "source": rng.choice(["uea", "uea", "ram_presplit"]) if cvt.startswith("presplit") else rng.choice(["ram", "ram", "uea"]) if kind == "tsc" else "ram",
             "n_train": rng.randint(2, n - 2),
@@ -713,6 +715,16 @@ class History:
                 self.v("overwrite_did_not_rewrite",
                        "run %d with overwrite_predictions left %s untouched" % (i, rel))
                 break
+        # (7b) ... and, with overwrite_fitted_strategies, every saved fitted strategy
+        if opts.get("save_fitted_strategies") and opts.get("overwrite_fitted_strategies") \
+                and outcome == "completed":
+            for rel, h in before.items():
+                if not rel.endswith(".pickle") or rel == "results.pickle" or rel not in after:
+                    continue
+                if after[rel] == h:
+                    self.v("overwrite_did_not_rewrite", "run %d with overwrite_fitted_strategies "
+                           "left the saved fitted strategy %s untouched" % (i, rel), kind="pickle")
+                    break
         # (5) registry complete after a completed run, read from a fresh load
         if outcome == "completed" and (after != before or not self.registry_checked):
             self.registry_checked = True
